@@ -45,7 +45,7 @@ impl Mv {
 
     pub fn parse(s: &str) -> Option<Mv> {
         let b = s.as_bytes();
-        if b.len() < 4 || b.len() > 5 {
+        if b.len() < 4 || b.len() > 5 || !s.is_ascii() {
             return None;
         }
         let from = parse_sq(&s[0..2])?;
@@ -139,6 +139,9 @@ impl Pos {
             let mut f = 0u8;
             for c in rank.chars() {
                 if let Some(d) = c.to_digit(10) {
+                    if d == 0 || f as u32 + d > 8 {
+                        return None;
+                    }
                     f += d as u8;
                 } else {
                     let kind = match c.to_ascii_lowercase() {
